@@ -32,6 +32,9 @@ pub struct Cfg {
     /// batch 0, amount i + 1): lists longer than the hub's default page of 1000
     #[serde(default)]
     pub legacy_bulk: u32,
+    /// every second validator address is written in upper case (bech32 allows all-upper-case)
+    #[serde(default)]
+    pub upper_validators: bool,
     /// token-focused world of C18(b): initial balances for both tokens, no hub
     #[serde(default)]
     pub token_world: Option<TokenWorld>,
@@ -57,6 +60,13 @@ impl Cfg {
     }
     pub fn validator(i: usize) -> String {
         format!("val{}", i)
+    }
+    pub fn validator_name(&self, i: usize) -> String {
+        if self.upper_validators && i % 2 == 1 {
+            format!("VAL{}", i)
+        } else {
+            format!("val{}", i)
+        }
     }
     pub fn peg_fee(&self) -> Decimal {
         Decimal::from_str(&self.peg_recovery_fee).unwrap()
@@ -87,6 +97,7 @@ pub fn default_cfg() -> Cfg {
         genesis_time: 1_000_000,
         legacy_wait: vec![],
         legacy_bulk: 0,
+        upper_validators: false,
         token_world: None,
         reverse_delegation_order: false,
         swap_extra_round_down: false,
@@ -117,7 +128,7 @@ pub fn deploy_staged(cfg: &Cfg, stage: Option<u8>) -> Result<Deployed, String> {
     w.ext.swap_extra_round_down = cfg.swap_extra_round_down;
     w.staking.reverse_query_order = cfg.reverse_delegation_order;
     for i in 0..cfg.chain_validators {
-        w.staking.validators.insert(Cfg::validator(i));
+        w.staking.validators.insert(cfg.validator_name(i));
     }
     for u in cfg.users_list() {
         w.credit(&u, DENOM, cfg.user_funds.u128());
@@ -201,7 +212,7 @@ pub fn deploy_staged(cfg: &Cfg, stage: Option<u8>) -> Result<Deployed, String> {
     .map_err(|e| format!("dispatcher instantiate: {}", e))?;
 
     let registry: Vec<basset_sei_validators_registry::registry::Validator> = (0..cfg.registered_validators)
-        .map(|i| basset_sei_validators_registry::registry::Validator { address: Cfg::validator(i) })
+        .map(|i| basset_sei_validators_registry::registry::Validator { address: cfg.validator_name(i) })
         .collect();
     wasm::instantiate(
         &mut w,
